@@ -173,8 +173,23 @@ func c17Stage(t *c17Trace, pop *genetics.Population) {
 
 // c17RunPlain mirrors the driving loop of runHistory (seed, NewPopulation, one raw draw, per epoch: fitness rule,
 // NextEpoch through the sequential executor, one raw draw)
+// c17DebugLevel: the repeat pass of the parent runs with the library's process-global log level set to debug (as
+// loading any options file with log_level debug leaves it) and the four output functions silenced: the log level
+// is not an input of a run, so the results must not depend on it
+var c17DebugLevel bool
+
 func c17RunPlain(in *epochInput, between func(ep int)) (t c17Trace) {
 	quiet()
+	if c17DebugLevel {
+		d, i, w, e := neat.DebugLog, neat.InfoLog, neat.WarnLog, neat.ErrorLog
+		silent := func(string) {}
+		neat.DebugLog, neat.InfoLog, neat.WarnLog, neat.ErrorLog = silent, silent, silent, silent
+		neat.LogLevel = neat.LogLevelDebug
+		defer func() {
+			neat.DebugLog, neat.InfoLog, neat.WarnLog, neat.ErrorLog = d, i, w, e
+			quiet()
+		}()
+	}
 	t.Digests, t.Hashes = []string{}, []string{}
 	start, err := startGenomeFor(in)
 	if err != nil {
@@ -424,13 +439,15 @@ func c17Check(r *Run, ins []*epochInput, chunk int) []c17Trace {
 	for i := range parsed {
 		p1[i] = c17RunPlain(parsed[i], nil)
 	}
+	c17DebugLevel = true
 	for i := len(parsed) - 1; i >= 0; i-- {
 		p2[i] = c17RunPlain(parsed[i], nil)
 	}
+	c17DebugLevel = false
 	wg.Wait()
 	byHist := make([][]c17Run, len(ins))
 	for i := range ins {
-		byHist[i] = []c17Run{{"parent", &p1[i]}, {"parent (repeat)", &p2[i]}}
+		byHist[i] = []c17Run{{"parent", &p1[i]}, {"parent (repeat, global log level debug)", &p2[i]}}
 	}
 	for _, c := range all {
 		for k := range c.res.traces {
